@@ -1,0 +1,9 @@
+//go:build !verif
+
+// Package verifhook provides named yield points for external verification
+// harnesses. Without the "verif" build tag Point is an empty function that the
+// compiler inlines away.
+package verifhook
+
+// Point marks a place where a verification build may observe or delay execution.
+func Point(string) {}
